@@ -11,7 +11,7 @@ from .. import lib_fm_transpile as T
 
 CORE = ('intfn', 'ipow', 'while', 'boundmod')
 POOLS = ('core', 'lb', 'step', 'lvafter', 'idiv', 'mod', 'sign', 'conv', 'intcast', 'select', 'exitcycle', 'section')
-QUICK = {'core': 40, '*': 5}
+QUICK = {'core': 24, '*': 4}
 THOROUGH = {'core': 700, '*': 50}
 
 ASSUMPTIONS = [
